@@ -175,7 +175,8 @@ class CHECK(vlib.Check):
                 "SwapContents/SwapContentsAux, Plunder (move), operator==, StartsWith/EndsWith. "
                 "arguments that are references into the Queue's own storage (AddTail(q[i]) etc.), ShrinkToFit/EnsureCanAdd, "
                 "ReplaceAllItems, GetArrayPointer, lexicographic comparison. "
-                "Effect level in the model: Sort/Merge, Normalize's rotation, RemoveAllInstancesOf's compaction loop. "
+                "Effect level in the model: Sort/Merge (stable sort of the range), Normalize's rotate-the-whole-array branch, "
+                "RemoveSortedDuplicateItems' compaction. "
                 "Not modelled: AdoptRawDataArray/ReleaseRawDataArray, HashCode/CalculateChecksum, constructors other than the default one.")
     premises = ["memory safety and object lifetime of the C++ (observed by ASan/UBSan in the harness only)",
                 "item counts below 2^31 (the uint32 sums size+extraPreallocs, count+n of EnsureSize/EnsureCanAdd/ShrinkToFit ARE modelled; "
